@@ -131,3 +131,36 @@ func VerifC06Reset() {
 	c06compare(rec.msgs, ref, "reset")
 	zz.Reach("end")
 }
+
+// VerifC06LongSysex: one sysex of L bytes in total (symbolic data) followed by a note-on, delivered in `chunk`-byte
+// pieces: lengths around the powers of two and around the buffer limit, which short symbolic streams never reach.
+func VerifC06LongSysex() {
+	L, B, cfgB, chunk := zz.Param("L"), zz.Param("B"), zz.Param("cfgB"), zz.Param("chunk")
+	keep := zz.Choice("sysex-option", 2) == 1
+	var rec c06rec
+	rd := NewReader(ListenConfig{SysEx: keep, SysExBufferSize: uint32(cfgB), TimeCode: true, ActiveSense: true}, rec.on)
+	ref := &ZZRefRecv{B: B, KeepSysex: keep}
+	stream := make([]byte, 0, L+3)
+	stream = append(stream, 0xF0)
+	for i := 0; i < L-2; i++ {
+		stream = append(stream, zz.U8("data")&0x7F)
+	}
+	stream = append(stream, 0xF7, 0x90, zz.U8("key")&0x7F, zz.U8("vel")&0x7F)
+	panicked := false
+	for at := 0; at < len(stream) && !panicked; at += chunk {
+		end := at + chunk
+		if end > len(stream) {
+			end = len(stream)
+		}
+		d := int32(zz.U8("d"))
+		ref.Deliver(stream[at:end], d)
+		panicked = zz.Panics(func() { rd.EachMessage(stream[at:end], d) })
+	}
+	zz.Assert(!panicked, "long:no-panic")
+	if panicked {
+		return
+	}
+	c06wellformed(rec.msgs, "long")
+	c06compare(rec.msgs, ref, "long")
+	zz.Reach("end")
+}
